@@ -1,8 +1,139 @@
 package main
 
+import (
+	"encoding/json"
+	"flag"
+	"fmt"
+	"os"
+	"os/exec"
+	"path/filepath"
+	"strings"
+)
+
 // replayModel turns a solver model into a concrete run of the real code.
-// Drivers are registered per contract shape; without a driver the violation
-// is reported with "no-failing-input-found".
+// No generic driver exists (DESIGN.md 0a): engine-reported violations carry
+// "no-failing-input-found" and the replay file names the failed obligation.
 func replayModel(prop string, w *oblResult, model string, rep map[string]interface{}) bool {
 	return false
+}
+
+// registeredReplay: /verif/replay/registry.json maps obligation names to
+// committed replay files with a test of the real code (written when the
+// defect behind that obligation was first found). When such an obligation
+// fails, the test is run against the tree under check; if it fails there, the
+// violation is confirmed on the real code.
+func registeredReplay(repo, obligation string) (file string, confirmed bool, output string) {
+	b, err := os.ReadFile(filepath.Join(verifDir, "replay", "registry.json"))
+	if err != nil {
+		return "", false, ""
+	}
+	reg := map[string]string{}
+	if json.Unmarshal(b, &reg) != nil {
+		return "", false, ""
+	}
+	f, ok := reg[obligation]
+	if !ok {
+		// conjunct suffixes (.1, .2) share the entry of the clause
+		if i := strings.LastIndex(obligation, "."); i > 0 {
+			f, ok = reg[obligation[:i]]
+		}
+		if !ok {
+			return "", false, ""
+		}
+	}
+	passed, out := runGoTestReplay(repo, f)
+	return f, !passed, out
+}
+
+func runGoTestReplay(repo, file string) (passed bool, output string) {
+	b, err := os.ReadFile(file)
+	if err != nil {
+		return true, err.Error()
+	}
+	var rep struct {
+		GoTest *struct {
+			File   string `json:"file"`
+			Target string `json:"target"`
+			Pkg    string `json:"pkg"`
+			Run    string `json:"run"`
+			Race   bool   `json:"race"`
+		} `json:"go_test"`
+	}
+	if json.Unmarshal(b, &rep) != nil || rep.GoTest == nil {
+		return true, "no go_test in " + file
+	}
+	scratch := filepath.Join(verifDir, ".cache", "scratch")
+	os.MkdirAll(scratch, 0o755)
+	ov := filepath.Join(scratch, fmt.Sprintf("overlay-%d-%d.json", os.Getpid(), len(file)))
+	target := strings.Replace(rep.GoTest.Target, "/repo/", strings.TrimSuffix(repo, "/")+"/", 1)
+	ob, _ := json.Marshal(map[string]interface{}{"Replace": map[string]string{target: rep.GoTest.File}})
+	os.WriteFile(ov, ob, 0o644)
+	defer os.Remove(ov)
+	a := []string{"test", "-overlay", ov, "-vet=off", "-count=1", "-timeout", "120s", "-run", rep.GoTest.Run}
+	if rep.GoTest.Race {
+		a = append(a, "-race")
+	}
+	a = append(a, rep.GoTest.Pkg)
+	cmd := exec.Command("go", a...)
+	cmd.Dir = repo
+	cmd.Env = append(os.Environ(), "GOFLAGS=-mod=mod", "GOPROXY=off", "GOSUMDB=off", "GOTOOLCHAIN=local")
+	out, err := cmd.CombinedOutput()
+	return err == nil, string(out)
+}
+
+// cmdReplay: `vcgen replay -prop P -file F`.
+// F is a replay file written by a check (or one of the committed files under
+// /verif/replay). Two things can be replayed:
+//   - "go_test": a test of the real code (injected with go test -overlay, /repo
+//     is not written to); a failing test is the violation;
+//   - otherwise the named obligation is regenerated from /repo's current tree
+//     and decided again.
+func cmdReplay(args []string) int {
+	fs := flag.NewFlagSet("replay", flag.ExitOnError)
+	prop := fs.String("prop", "", "property id")
+	file := fs.String("file", "", "replay file")
+	repo := fs.String("repo", "/repo", "")
+	fs.Parse(args)
+	b, err := os.ReadFile(*file)
+	if err != nil {
+		fmt.Fprintln(os.Stderr, "BROKEN: replay file:", err)
+		return 2
+	}
+	var rep struct {
+		Property   string `json:"property"`
+		Obligation string `json:"obligation"`
+		GoTest     *struct {
+			File   string `json:"file"`
+			Target string `json:"target"`
+			Pkg    string `json:"pkg"`
+			Run    string `json:"run"`
+			Race   bool   `json:"race"`
+		} `json:"go_test"`
+	}
+	if err := json.Unmarshal(b, &rep); err != nil {
+		fmt.Fprintln(os.Stderr, "BROKEN: replay file:", err)
+		return 2
+	}
+	if *prop == "" {
+		*prop = rep.Property
+	}
+	if rep.GoTest != nil {
+		passed, out := runGoTestReplay(*repo, *file)
+		fmt.Print(truncate(out, 6000))
+		if !passed {
+			fmt.Printf("VIOLATION property=%s replay=%s\n", *prop, *file)
+			return 1
+		}
+		fmt.Printf("replay passes on the current tree: %s\n", rep.Obligation)
+		return 0
+	}
+	if rep.Obligation == "" {
+		fmt.Fprintln(os.Stderr, "BROKEN: replay file names no obligation")
+		return 2
+	}
+	fn := rep.Obligation
+	if i := strings.Index(fn, "/"); i >= 0 {
+		fn = fn[:i]
+	}
+	return cmdCheck([]string{"-prop", *prop, "-repo", *repo, "-only", fn, "-exact", rep.Obligation, "-nocache"})
 }
